@@ -863,7 +863,10 @@ def pooled_typestate(ctx, rule):
                 for c in ast.walk(st):
                     if isinstance(c, ast.Call):
                         callee = (dotted(c.func) or norm(c.func))
-                        if 'release' in callee.split('.')[-1] or callee.endswith('.append'):
+                        last_ = callee.split('.')[-1]
+                        # (a hand-back is the pool's release API — release / release_<kind> — or the push onto the pool's list;
+                        # bookkeeping helpers such as _note_item_released() merely mention the word)
+                        if last_ == 'release' or last_.startswith('release_') or last_.endswith('_release') or callee.endswith('.append'):
                             for a_ in list(c.args) + [k.value for k in c.keywords]:
                                 if isinstance(a_, ast.Name) and a_.id in ps:
                                     handed.add(a_.id)
